@@ -1,3 +1,33 @@
+//! vh-db: storage-backend and database checks on the real fuel-core code.
+//!
+//! * C11 — all storage backends store and iterate identically
+//! * C12 — historical views and rollbacks reproduce past state exactly
+//! * C09 — database commits are height-linked, reported height is exact
+//! * C08 — the importer only commits the next unique block, atomically, in order
+use mcx::*;
+
+mod c08;
+mod c09;
+mod c11;
+mod c12;
+mod bench;
+mod util;
+
 fn main() {
-    mcx::machinery_failure("not built yet");
+    let cli = Cli::parse();
+    util::scratch_init();
+    if std::env::var_os("VH_DB_DEBUG_PANIC").is_some() {
+        // debugging aid: print every panic with its location (disables mcx's quiet capture)
+        mcx::install_panic_hook();
+        std::panic::set_hook(Box::new(|info| eprintln!("PANIC: {info}")));
+    }
+    match cli.property.as_str() {
+        "C11" => c11::run(&cli),
+        "C12" => c12::run(&cli),
+        "C09" => c09::run(&cli),
+        "C08" => c08::run(&cli),
+        "BENCH" => bench::run(),
+        "BENCH2" => bench::run2(),
+        other => machinery_failure(&format!("vh-db does not serve {other}")),
+    }
 }
